@@ -120,7 +120,7 @@ def agg_triggers(spec, ref_rows):
             if name in ("MIN", "MAX") and any(not isinstance(x, Literal) for x in nn): t.add("C08-minmax-over-non-literals")
             if name in ("SUM", "AVG") and (any(R.num(x) is None for x in nn) or len(nn) != len(vals)): t.add("C08-sum-avg-over-non-numeric")
             if name == "AVG" and any((R.num(x) or (9,))[0] == 2 for x in nn): t.add("C08-avg-float-promotion")
-            if name in ("COUNT", "MIN", "MAX", "SAMPLE", "GROUP_CONCAT") and len(nn) != len(vals) and a[3][0] != "var": t.add("C08-aggregate-over-error-values")
+            if name in ("MIN", "MAX", "SAMPLE", "GROUP_CONCAT") and len(nn) != len(vals) and a[3][0] != "var": t.add("C08-aggregate-over-error-values")
     return t
 
 
@@ -150,7 +150,6 @@ def run_case(case, st=None):
         carve |= agg_triggers(spec, [(None, None, None, grp) for grp in R.groups_of(spec, ctx)])
         if R.STATS["str_of_bnode"]: carve.add("C08-str-of-bnode")
         if R.STATS["float_arithmetic"]: carve.add("C08-avg-float-promotion")
-        if R.STATS["error_through_function_argument"]: carve.add("C08-error-through-function")
     for x in carve: st.setdefault("_known", {})[x] = 1
     if carve:
         return None
